@@ -240,6 +240,13 @@ class MarkingDefinition(_STIXBase21, _MarkingsMixin):
                 MarkingDefinition,
             )
 
+        if definition_type == "tlp" and not definition:
+            raise PropertyPresenceError(
+                "A TLP MarkingDefinition object must have the property "
+                "'definition'",
+                MarkingDefinition,
+            )
+
         check_tlp_marking(self, '2.1')
 
     def serialize(self, pretty=False, include_optional_defaults=False, **kwargs):
